@@ -758,13 +758,21 @@ func (e *ConditionalExpr) Value(ctx *hcl.EvalContext) (cty.Value, hcl.Diagnostic
 	}
 
 	if resultType == cty.NilType {
+		// The description of the mismatch can name object attributes, and
+		// attribute names of a marked value may have been built from marked
+		// keys, so we only describe the mismatch in detail when neither
+		// result carries marks.
+		mismatch := "The two results have different types"
+		if !trueResult.ContainsMarked() && !falseResult.ContainsMarked() {
+			mismatch = describeConditionalTypeMismatch(trueResult.Type(), falseResult.Type())
+		}
 		return cty.DynamicVal, hcl.Diagnostics{
 			{
 				Severity: hcl.DiagError,
 				Summary:  "Inconsistent conditional result types",
 				Detail: fmt.Sprintf(
 					"The true and false result expressions must have consistent types. %s.",
-					describeConditionalTypeMismatch(trueResult.Type(), falseResult.Type()),
+					mismatch,
 				),
 				Subject:     hcl.RangeBetween(e.TrueResult.Range(), e.FalseResult.Range()).Ptr(),
 				Context:     &e.SrcRange,
